@@ -459,3 +459,77 @@ def h_e_explicit_valid(fidx: int, fbits: int, vi: int, ci: int) -> bool:
     post: _
     """
     return untraced(_explicit_all_valid, pick(fidx, 0, 11), pick(fbits, 0, 7), pick(vi, 0, 5), pick(ci, 0, 5))
+
+
+# ------------------------------------------------- explicit components mixed with random / switched-off ones
+def _mixed_body(fidx, fmode, vmode, cmode, fbits, vi, ci, tape):
+    """each of the three components is 'fixed' (0), 'shuffle' (1) or given explicitly (2).  The result must be the image of F
+    under ONE signed renaming and ONE permutation of positions in which every explicit component is EXACTLY the one given
+    (flips act on F's own variables: variable i is negated iff flips[i-1] == -1, wherever it is sent) and every
+    switched-off one is the identity."""
+    n, clauses = FORMULAS[fidx]
+    m = len(clauses)
+    flips = [(1 if fbits >> i & 1 else -1) for i in range(n)]
+    vperm = [x for x in PERMS3[vi] if x <= n] if n < 3 else list(PERMS3[vi])
+    S = [x - 1 for x in PERMS3[ci] if x <= m] if m < 3 else [x - 1 for x in PERMS3[ci]]
+    args = [['fixed', 'shuffle', list(flips)][fmode], ['fixed', 'shuffle', list(vperm)][vmode], ['fixed', 'shuffle', list(S)][cmode]]
+    F = _mk(fidx)
+    old = SH.random
+    SH.random = FakeRandom(tape)
+    try:
+        G = SH.Shuffle(F, *args)
+    finally:
+        SH.random = old
+    out = [list(c) for c in G.clauses()]
+    if G.number_of_variables() != n or len(out) != m:
+        return False
+    ident = list(range(1, n + 1))
+    fcands = [[1] * n] if fmode == 0 else ([flips] if fmode == 2 else [list(f) for f in itertools.product([1, -1], repeat=n)])
+    vcands = [ident] if vmode == 0 else ([vperm] if vmode == 2 else [list(p) for p in itertools.permutations(ident)])
+    for f in fcands:
+        for v in vcands:
+            img = [[(1 if l > 0 else -1) * f[abs(l) - 1] * v[abs(l) - 1] for l in c] for c in clauses]
+            if cmode == 1:
+                if sorted(img) == sorted(out):
+                    return True
+            else:
+                s = list(range(m)) if cmode == 0 else S
+                exp = [None] * m
+                for i, c in enumerate(img):
+                    exp[s[i]] = c
+                if exp == out:
+                    return True
+    return False
+
+
+def _mixed(fidx, modes, fbits, vi, ci):
+    tape = Tape()
+    fm, vm, cm = modes // 9, (modes // 3) % 3, modes % 3
+    ok = untraced(_mixed_body, fidx, fm, vm, cm, fbits, vi, ci, tape)
+    if not ok:
+        raise AssertionError('TAPE=%r' % (tape.log,))
+    return True
+
+
+def h_e_mixed_flips(fidx: int, vm: int, cm: int, fbits: int) -> bool:
+    """
+    pre: 0 <= fidx <= 11 and 0 <= vm <= 1 and 0 <= cm <= 1 and 0 <= fbits <= 7
+    post: _
+    """
+    return _mixed(pick(fidx, 0, 11), 18 + 3 * pick(vm, 0, 1) + pick(cm, 0, 1), pick(fbits, 0, 7), 0, 0)
+
+
+def h_e_mixed_vperm(fidx: int, fm: int, cm: int, vi: int) -> bool:
+    """
+    pre: 0 <= fidx <= 11 and 0 <= fm <= 1 and 0 <= cm <= 1 and 0 <= vi <= 5
+    post: _
+    """
+    return _mixed(pick(fidx, 0, 11), 9 * pick(fm, 0, 1) + 6 + pick(cm, 0, 1), 0, pick(vi, 0, 5), 0)
+
+
+def h_e_mixed_cperm(fidx: int, fm: int, vm: int, ci: int) -> bool:
+    """
+    pre: 0 <= fidx <= 11 and 0 <= fm <= 1 and 0 <= vm <= 1 and 0 <= ci <= 5
+    post: _
+    """
+    return _mixed(pick(fidx, 0, 11), 9 * pick(fm, 0, 1) + 3 * pick(vm, 0, 1) + 2, 0, 0, pick(ci, 0, 5))
